@@ -14,6 +14,7 @@ import (
 	"os"
 	"runtime"
 	"runtime/pprof"
+	"sort"
 	"strings"
 	"sync"
 	"sync/atomic"
@@ -138,6 +139,36 @@ type checker struct {
 	opMicros   *tally // run time per last-operator class (microseconds)
 	mu         sync.Mutex
 	failed     map[string]int // signature -> number of failing runs
+	samples    map[string]interface{}
+}
+
+// sampleCategory names the kind of case a run is an example of ("" = none).
+func sampleCategory(j job, exp refeval.Expected) string {
+	p := j.p
+	if j.par != 4 || p.Src.Rows != refeval.Chunk+1 || p.Src.Shards != 3 || p.Src.Keys != refeval.KeysCollide {
+		return ""
+	}
+	switch {
+	case p.Shape == refeval.ShapeShared && len(p.Ops) == 1 && p.N1 == 1 && p.N2 == 2:
+		return "1 shared sub-slice, two shard counts"
+	case p.Shape == refeval.ShapeNested && len(p.Ops) == 0 && p.N1 == 2:
+		return "2 nested shuffles"
+	case p.Shape == refeval.ShapeCogroup3 && len(p.Ops) == 0:
+		return "3 three-way cogroup"
+	case p.Shape != refeval.ShapeChain || p.Src.Kind != refeval.SrcReaderFunc || p.Src.Style != 1:
+		return ""
+	case len(p.Ops) == 2 && p.Ops[0].Kind == refeval.OpFlatmap && p.Ops[0].Var == refeval.Flat2 && p.Ops[1].Kind == refeval.OpReduce:
+		return "4 flatmap then reduce"
+	case len(p.Ops) == 2 && p.Ops[0].Kind == refeval.OpReshuffle && p.Ops[1].Kind == refeval.OpHead && exp.Loose != nil:
+		return "5 head after a shuffle (count-bounded oracle)"
+	case len(p.Ops) == 2 && p.Ops[0].Kind == refeval.OpRepartition && p.Ops[1].Kind == refeval.OpWriterFunc:
+		return "6 writerfunc after repartition (per-shard oracle)"
+	case len(p.Ops) == 2 && p.Ops[0].Kind == refeval.OpFilter && p.Ops[1].Kind == refeval.OpHead && p.Ops[1].N == 1:
+		return "7 shuffle-free, order checked"
+	case len(p.Ops) == 2 && p.Ops[0].Kind == refeval.OpCogroup && p.Ops[0].Var == refeval.CgSecond && p.Ops[1].Kind == refeval.OpScan:
+		return "8 scan after cogroup"
+	}
+	return ""
 }
 
 // verdict runs one job and returns the mismatches (nil = agrees with the reference).
@@ -273,6 +304,17 @@ func (c *checker) account(j job, exp refeval.Expected, res result) {
 	}
 	if j.p.Src.Rows < j.p.Src.Shards {
 		atomic.AddInt64(&c.st.emptyShardRun, 1)
+	}
+	if cat := sampleCategory(j, exp); cat != "" {
+		c.mu.Lock()
+		if _, ok := c.samples[cat]; !ok {
+			c.samples[cat] = map[string]interface{}{
+				"case": cat, "program": key, "parallelism": j.par,
+				"expected_rows": refeval.CanonRows(exp.Rows), "order_fixed": exp.OrderFixed, "loose": exp.Loose,
+				"got_rows": refeval.CanonRows(res.out.Rows), "callback_events": fmt.Sprint(res.out.Events),
+			}
+		}
+		c.mu.Unlock()
 	}
 	c.srcRuns.Add(j.p.Src.Class())
 	for _, o := range j.p.Ops {
@@ -417,7 +459,7 @@ func main() {
 		workers = runtime.GOMAXPROCS(0)
 	}
 	c := &checker{r: r, programs: ev.NewCounter(), nontrivial: ev.NewCounter(), results: ev.NewCounter(),
-		opRuns: newTally(), srcRuns: newTally(), opMicros: newTally(), failed: map[string]int{}}
+		opRuns: newTally(), srcRuns: newTally(), opMicros: newTally(), failed: map[string]int{}, samples: map[string]interface{}{}}
 
 	switch {
 	case *flagOne != "":
@@ -453,11 +495,13 @@ func main() {
 	if len(perPhase) > 1 {
 		nReal = perPhase[1]
 	}
-	for _, j := range phases[0].jobs {
-		p := j.p
-		if j.par == 1 && (len(p.Ops) == 2 && p.NumShuffles() > 0 && p.Src.Rows == refeval.Chunk+1 || p.Shape != refeval.ShapeChain && p.Src.Rows == refeval.Chunk) {
-			r.Sample(p.String())
-		}
+	var cats []string
+	for k := range c.samples {
+		cats = append(cats, k)
+	}
+	sort.Strings(cats)
+	for _, k := range cats {
+		r.Sample(c.samples[k])
 	}
 	c.mu.Lock()
 	failed := map[string]int{}
